@@ -19,7 +19,7 @@ Ltac bauto := bconsts; srcT_auto.
 (* ---- record descriptor ---- *)
 Lemma src_bc_offsets_eq m o :
   src_bc_length_offset m o = add32 m o 0 /\ src_bc_type_offset m o = add32 m o 4 /\ src_bc_msg_offset m o = add32 m o HL.
-Proof. repeat split. Qed.
+Proof. unfold src_bc_length_offset, src_bc_type_offset, src_bc_msg_offset. bconsts. split; [|split]; src_robust. Qed.
 
 Lemma src_bc_calculate_max_message_length_eq m cap : 0 <= cap ->
   src_bc_calculate_max_message_length m cap = Ok (max_msg cap).
@@ -28,12 +28,12 @@ Proof. intros H. unfold src_bc_calculate_max_message_length, max_msg. srcT_norm.
 Lemma src_bc_check_msg_type_id_eq m t :
   src_bc_check_msg_type_id m t =
   Ok (if t <? 1 then RErr "BroadcastTransmitError::MessageIdShouldBeGreaterThenZero" [t] else ROk 0).
-Proof. unfold src_bc_check_msg_type_id. destruct (t <? 1); reflexivity. Qed.
+Proof. unfold src_bc_check_msg_type_id. src_robust. Qed.
 
 Lemma src_bc_check_message_length_eq m maxl len :
   src_bc_check_message_length m maxl len =
   Ok (if len >? maxl then RErr "BroadcastTransmitError::EncodedMessageExceedsMaxMsgLength" [len; maxl] else ROk 0).
-Proof. unfold src_bc_check_message_length. destruct (len >? maxl); reflexivity. Qed.
+Proof. unfold src_bc_check_message_length. src_robust. Qed.
 
 (* bit_utils::align with the record alignment is the align32 of the model *)
 Lemma src_align_RA m v : src_align m v GenConsts.BC_RECORD_ALIGNMENT = align32 m v RA.
@@ -41,23 +41,23 @@ Proof. unfold src_align, align32. bauto. Qed.
 
 (* ---- transmitter ---- *)
 Lemma src_bc_tx_record_offset_eq m cap tail : src_bc_tx_record_offset m (cap - 1) tail = Ok (wrap32 (Z.land tail (cap - 1))).
-Proof. reflexivity. Qed.
+Proof. unfold src_bc_tx_record_offset. first [ reflexivity | rewrite Z.land_comm; reflexivity | src_robust ]. Qed.
 Lemma src_bc_tx_record_length_eq m len : src_bc_tx_record_length m len = add32 m len HL.
-Proof. reflexivity. Qed.
+Proof. unfold src_bc_tx_record_length. bconsts. src_robust. Qed.
 Lemma src_bc_tx_aligned_record_length_eq m rl : src_bc_tx_aligned_record_length m rl = align32 m rl RA.
 Proof. unfold src_bc_tx_aligned_record_length. apply src_align_RA. Qed.
 Lemma src_bc_tx_new_tail_eq m tail al : src_bc_tx_new_tail m tail al = add64 m tail al.
-Proof. reflexivity. Qed.
+Proof. unfold src_bc_tx_new_tail. src_robust. Qed.
 Lemma src_bc_tx_to_end_of_buffer_eq m cap ro : src_bc_tx_to_end_of_buffer m cap ro = sub32 m cap ro.
-Proof. reflexivity. Qed.
+Proof. unfold src_bc_tx_to_end_of_buffer. src_robust. Qed.
 Lemma src_bc_tx_wraps_eq m te al : src_bc_tx_wraps m te al = Ok (te <? al).
-Proof. reflexivity. Qed.
+Proof. unfold src_bc_tx_wraps. src_robust. Qed.
 Lemma src_bc_tx_intent_wrapped_eq m nt te : src_bc_tx_intent_wrapped m nt te = add64 m nt te.
-Proof. reflexivity. Qed.
+Proof. unfold src_bc_tx_intent_wrapped. src_robust. Qed.
 Lemma src_bc_tx_tail_after_padding_eq m tail te : src_bc_tx_tail_after_padding m tail te = add64 m tail te.
-Proof. reflexivity. Qed.
+Proof. unfold src_bc_tx_tail_after_padding. src_robust. Qed.
 Lemma src_bc_tx_final_tail_eq m tail1 al : src_bc_tx_final_tail m tail1 al = add64 m tail1 al.
-Proof. reflexivity. Qed.
+Proof. unfold src_bc_tx_final_tail. src_robust. Qed.
 
 (* the arithmetic prefix of Broadcast.transmit (record offset, lengths, new tail, room to the end, wrap decision and the
    three tails it publishes), assembled from the translated fragments *)
@@ -75,8 +75,11 @@ Definition tx_plan_model (m : mode) (cap tail len : Z) : outcome (Z * Z * Z * Z 
   Ok (ro, rl, al, nt, te, te <? al).
 Lemma tx_plan_eq m cap tail len : tx_plan m cap tail len = tx_plan_model m cap tail len.
 Proof. unfold tx_plan, tx_plan_model. rewrite src_bc_tx_record_offset_eq. cbn [bind]. cbv zeta.
-  unfold src_bc_tx_record_length. apply bind_ext; intros rl _.
-  rewrite src_bc_tx_aligned_record_length_eq. apply bind_ext; intros al _. reflexivity. Qed.
+  rewrite src_bc_tx_record_length_eq. apply bind_ext; intros rl _.
+  rewrite src_bc_tx_aligned_record_length_eq. apply bind_ext; intros al _.
+  rewrite src_bc_tx_new_tail_eq. apply bind_ext; intros nt _.
+  rewrite src_bc_tx_to_end_of_buffer_eq. apply bind_ext; intros te _.
+  rewrite src_bc_tx_wraps_eq. reflexivity. Qed.
 
 (* BroadcastTransmitter::new over a buffer of cap + TRAILER bytes, cap = 2^k *)
 Lemma src_bc_tx_new_spec m cap : (exists k, 3 <= k <= 30 /\ cap = 2 ^ k) ->
@@ -99,23 +102,23 @@ Proof. intros (k & Hk & E) Hp.
 (* ---- receiver ---- *)
 Lemma src_bc_rx_do_validate_eq m cap mm c :
   src_bc_rx_do_validate m cap (get64 mm (intent_idx cap)) c = do_validate m W64 cap mm c.
-Proof. reflexivity. Qed.
+Proof. unfold src_bc_rx_do_validate, do_validate. cbv zeta. generalize (get64 mm (intent_idx cap)); intros it. src_robust. Qed.
 
 Lemma src_bc_rx_offset_eq m ro : src_bc_rx_offset m ro = add32 m ro HL.
-Proof. reflexivity. Qed.
+Proof. unfold src_bc_rx_offset, src_bc_msg_offset. bconsts. src_robust. Qed.
 Lemma src_bc_rx_length_eq m w : src_bc_rx_length m w = sub32 m w HL.
-Proof. reflexivity. Qed.
+Proof. unfold src_bc_rx_length. bconsts. src_robust. Qed.
 Lemma src_bc_rx_available_eq m tail c : src_bc_rx_available m tail c = Ok (tail >? c).
-Proof. reflexivity. Qed.
+Proof. unfold src_bc_rx_available. src_robust. Qed.
 Lemma src_bc_rx_record_offset_eq m cap c : src_bc_rx_record_offset m (cap - 1) c = Ok (Z.land (wrap32 c) (cap - 1)).
-Proof. reflexivity. Qed.
+Proof. unfold src_bc_rx_record_offset. first [ reflexivity | rewrite Z.land_comm; reflexivity | src_robust ]. Qed.
 Lemma src_bc_rx_next_record_eq m w c : src_bc_rx_next_record m w c = (a <- align32 m w RA ;; add64 m c a).
-Proof. unfold src_bc_rx_next_record. rewrite src_align_RA. reflexivity. Qed.
+Proof. unfold src_bc_rx_next_record. rewrite src_align_RA. apply bind_ext; intros a _. src_robust. Qed.
 Lemma src_bc_rx_next_record_after_padding_eq m nr w :
   src_bc_rx_next_record_after_padding m nr w = (a <- align32 m w RA ;; add64 m nr a).
-Proof. unfold src_bc_rx_next_record_after_padding. rewrite src_align_RA. reflexivity. Qed.
+Proof. unfold src_bc_rx_next_record_after_padding. rewrite src_align_RA. apply bind_ext; intros a _. src_robust. Qed.
 Lemma src_bc_rx_is_padding_eq m t : src_bc_rx_is_padding m t = Ok (t =? PADDING).
-Proof. unfold src_bc_rx_is_padding. f_equal. apply Z.eqb_sym. Qed.
+Proof. unfold src_bc_rx_is_padding. bconsts. f_equal. first [ reflexivity | apply Z.eqb_sym ]. Qed.
 
 (* receive_next of the model, written with the translated pieces only *)
 Definition receive_next_src (m : mode) (cap : Z) (mm : mem) (r : rx) : outcome (rx * bool) :=
